@@ -77,7 +77,7 @@ def load(repo):
     if os.path.exists(path):
         try:
             with open(path, 'rb') as f:
-                return pickle.load(f)
+                return _canon(pickle.load(f))
         except Exception:
             pass
     from concurrent.futures import ProcessPoolExecutor
@@ -100,6 +100,12 @@ def load(repo):
                     pass
     except OSError:
         pass
+    return _canon(facts)
+
+def _canon(facts):
+    """local variables renamed back to the names the pinned tree uses (sa/core/canon.py); applied after caching, never stored"""
+    from . import canon
+    canon.c_normalise(facts)
     return facts
 
 class CUnit:
